@@ -30,7 +30,7 @@ def Obs.ids (o : Obs) : List Nat := (List.range o.nProd).flatMap o.prodIds
 /-- Program order of the callers: each producer queues its messages one after the other. -/
 def progPred (m : Nat) : Option Nat := if m % 1000 = 0 then none else some (m - 1)
 
-def obsCfg : Cfg := ⟨50, false, progPred⟩
+def obsCfg : Cfg := ⟨50, false, false, progPred⟩
 
 /-- Per producer: (sent-before-disconnect but not written, lost one if any, the rest). -/
 def Obs.split (o : Obs) (i : Nat) : List Nat × Option Nat × List Nat :=
@@ -56,7 +56,7 @@ def witness (o : Obs) : List Choice :=
     | some l => [Choice.send l] | none => [])
   let imm2 := prods.flatMap (fun i => match (o.split i).2.1 with
     | some _ => (o.split i).2.2.map Choice.check | none => [])
-  wPart ++ sentPart ++ lostChecks ++ [.disconnect] ++ imm1 ++ handlers ++ lostSends ++ imm2
+  [Choice.start] ++ wPart ++ sentPart ++ lostChecks ++ [.disconnect] ++ imm1 ++ handlers ++ lostSends ++ imm2
 
 /-- `none` = explained; `some reason` otherwise. -/
 def unexplained (o : Obs) : Option String :=
@@ -75,6 +75,32 @@ def unexplained (o : Obs) : Option String :=
     else if !(o.lost.all (fun x => o.ids.contains x)) || !(o.before.all (fun x => o.ids.contains x)) then
       some "unknown-id"
     else none
+
+/-- Handler actions that bring a disconnected, started peer to its final state. -/
+def shutdown (k : Nat) : List Choice :=
+  [Choice.qQuit] ++ List.replicate k .qStep ++ [.oQuit] ++ List.replicate k .oStep ++
+    [.iExit, .sInQuit, .sOutQuit]
+
+/-- `n` messages queued while the handshake is still in progress; then either the negotiation
+fails (the handlers are never started) or it completes, everything is written, and the remote
+closes. -/
+def prestartRun (n : Nat) (fail : Bool) : Sys :=
+  let ids := List.range n
+  let q := ids.flatMap (fun m => [Choice.check m, .send m])
+  if fail then
+    exec obsCfg (init ids) (q ++ [.disconnect, .abandon] ++ List.replicate (n + 1) .aStep)
+  else
+    exec obsCfg (init ids) (q ++ [.start] ++
+      ids.flatMap (fun _ => [Choice.qRecvOut, .oRecv, .oStep, .sRecv, .oStep, .oStep, .oStep, .qRecvDone]) ++
+      [.disconnect] ++ shutdown (n + 4))
+
+def prestartAnswer (n : Nat) (fail : Bool) : String :=
+  let s := prestartRun n fail
+  let ids := List.range n
+  let once := (ids.filter (fun m => s.done.count m == 1)).length
+  let multi := (ids.filter (fun m => s.done.count m > 1)).length
+  if final s then s!"done={once}/{n} multi={multi} written={s.written.length}"
+  else "model-not-final"
 
 def explains (o : Obs) : Bool := (unexplained o).isNone
 
